@@ -219,16 +219,17 @@ class Engine:
         self._live = {}
         self._escaped = {}
         self.refused = []
+        self.keep_dead = False     # keep dead locals in the store (needed to read a parameter's partition at return)
 
     # ------------------------------------------------------------------ paths
     def frame_id(self, fn):
-        return fn.name if not fn.static else '%s@%s' % (fn.name, fn.unit)
+        return fn.name if not fn.static else '%s@%s' % (fn.name, fn.unit.replace('.', '_'))
 
     def qualify(self, fn, d):
         if d.startswith('G:') or d.startswith('F:') or d.startswith('E:'):
             return d
         if d.startswith('S:'):
-            return 'S:%s:%s' % (fn.unit, d[2:])
+            return 'S:%s:%s' % (fn.unit.replace('.', '_'), d[2:])
         return '%s::%s' % (self.frame_id(fn), d)
 
     def canon(self, E, x):
@@ -684,8 +685,9 @@ class Engine:
             if idx == 0:
                 # drop dead locals at block entry
                 lv = live.get(bid, ())
-                st = {p: v for p, v in st.items()
-                      if not p.startswith(fid + '::') or root_of(p).split('::', 1)[1] in lv}
+                if not self.keep_dead:
+                    st = {p: v for p, v in st.items()
+                          if not p.startswith(fid + '::') or root_of(p).split('::', 1)[1] in lv}
                 temps = self.prune_temps(fn, bid, temps)
             skey = (bid, idx, self.freeze(st), self.freeze(temps))
             if skey in seen:
